@@ -51,6 +51,8 @@ var c04Skeletons = []skeleton{
 	{name: "where-via-let-chain", kind: "string", pre: "let a1 = ", post: "; let a2 = strcat(a1, 'x'); T | where s == a2 and t != a1 | extend z = a2", uses: 3},
 
 	{name: "table", kind: "ident", pre: "", post: " | where a > 1"},
+	{name: "table-then-join", kind: "ident", pre: "", post: " | join kind=leftouter (U | where y > 1) on $left.k == $right.k"},
+	{name: "iff-arguments", kind: "string", pre: "T | extend v = iff(tag == ", post: ", 'p $2 q', \"$3\"), w = iif(a > 1, '$1', b)"},
 	{name: "column", kind: "ident", pre: "T | where ", post: " == 1"},
 	{name: "qualified-part", kind: "ident", pre: "T | where t.", post: " == 1 or ", alias: false},
 	{name: "project-alias", kind: "ident", pre: "T | project ", post: " = a, b"},
@@ -334,7 +336,7 @@ func c04Main(r *run.Runner) {
 	}
 	// contents that mean something to the compiler itself (its aliases, generated names, placeholders, keywords)
 	magic := []string{"$left", "$right", "$left.a", "$right.k", "a $right b", "__subquery0", "__subquery1", "count()", "render_type", "render_prop_title", "NULL /* unhandled",
-		"coalesce(", "true", "false", "null", "by", "and", "in", "$1", "{p:Int32}", "HOLE", "k", "a", "T", "R", "x", "v", "tag", "lower(", "--", "/*", "*/", "\\n", "%d", "$", "$$", "${x}"}
+		"coalesce(", "true", "false", "null", "by", "and", "in", "$1", "{p:Int32}", "HOLE", "k", "a", "T", "R", "x", "v", "tag", "lower(", "--", "/*", "*/", "\\n", "%d", "$", "$$", "${x}", "{on}", "{left}", "{right}", "{{on}}", "{0}", "%s", "%v", "%[1]s", "$2", "$3", "from $3 up", "\\1", "&", "?"}
 	r.Sweep("magic-contents", int64(len(magic)), func(w *run.Worker, item int64) {
 		doContent(w, magic[item])
 		doContent(w, " "+magic[item]+" ")
